@@ -64,7 +64,7 @@ MIN_BUDGET = 60
 
 PATHS_DISK = ["add_thin_pack", "add_pack", "add_pack_data", "reader",
               "copier", "receive_pack"]
-PATHS_MEM = ["add_thin_pack", "add_pack", "add_pack_data"]
+PATHS_MEM = ["add_thin_pack", "add_pack", "add_pack_data", "receive_pack"]
 VICTIMS = ["pack", "idx", "loose", "index", "packed-refs", "commit-graph",
            "midx"]
 
@@ -457,7 +457,9 @@ class Bench:
             self.repo.close()
             self.repo = None
         if self.kind == "memory":
-            self.store = MemoryObjectStore()
+            from dulwich.repo import MemoryRepo
+            self.repo = MemoryRepo()
+            self.store = self.repo.object_store
             self._fill(self.store)
         else:
             if self.cur:
@@ -652,6 +654,13 @@ def judge_ingest(ctx, bench, path, label, data, cuts, valid, expected, cls,
                 pass
     if outcome == "raised":
         ctx.stat("probe:ingest_failed_clean")
+        if valid is not None and data == valid and path != "add_pack_data":
+            # (add_pack_data is fed what PackStreamReader yields, which for
+            # packs with offset deltas is not something it can re-encode)
+            # the undamaged stream: if this path cannot take it, nothing
+            # the damaged ones show means anything
+            ctx.v(f"valid-pack-rejected/{tag}/{exc.name}",
+                  f"{label}: {exc!r}"[:300])
         if valid is not None and len(data) < len(valid):
             ctx.stat("probe:eof_inside_pack")
         for who, snap in (("same-instance", now), ("fresh-process", fresh)):
